@@ -12,6 +12,10 @@
 //! sv_cof <P> <x> <facs> <maxlarge> <double>   fbase::cofactor
 //! sv_fb <n> <size>                            FBase::new: primes and idx_by_log
 //! sv_mult <n>                                 fbase::select_multiplier
+//! svb <d0|d1> <root> <P> <cmd> ...            log accumulation: d1 = answered by the checked profile only, d0 = release only
+//!     cmds: new <off> <nblocks> <R1> <R2> | skip <k> | rehash <R1> <R2> | blk <threshold>
+//!     blk = sieve_block(); dump of the byte array `blk` (hash, maximum), smooths(threshold, root, roots); next_block()
+//!     answer: ok | K<blk_no> h=<hash of the 32768 bytes> mx=<max byte> n=<count> <pos>:<pidx.pidx> ...;...
 use crate::util::*;
 use std::str::FromStr;
 use yamaquasi::arith::{Dividers, I256};
@@ -172,6 +176,91 @@ fn sv(a: &[&str]) -> Option<String> {
     Some(format!("ok {} | {}", show_list(&thrs), blocks.join(";")))
 }
 
+fn svb(a: &[&str]) -> Option<String> {
+    let dbg = match *a.get(0)? {
+        "d0" => false,
+        "d1" => true,
+        _ => return None,
+    };
+    if dbg != cfg!(debug_assertions) {
+        return None; // the request is meant for the other build profile
+    }
+    let root: Option<u32> = if a[1] == "none" { None } else { Some(u32_of(a[1])?) };
+    let primes: Vec<u32> = list_of(a.get(2)?)?;
+    let fb = synthetic_fbase(&primes);
+    let mut roots: Vec<[Vec<u32>; 2]> = vec![];
+    let mut i = 3;
+    while i < a.len() {
+        match a[i] {
+            "new" => {
+                roots.push([list_of(a.get(i + 3)?)?, list_of(a.get(i + 4)?)?]);
+                i += 5;
+            }
+            "rehash" => {
+                roots.push([list_of(a.get(i + 1)?)?, list_of(a.get(i + 2)?)?]);
+                i += 3;
+            }
+            "blk" | "skip" => i += 2,
+            _ => return None,
+        }
+    }
+    let mut st: Option<Sieve> = None;
+    let mut cur: usize = usize::MAX;
+    let mut nroots = 0;
+    let mut out: Vec<String> = vec![];
+    let mut i = 3;
+    while i < a.len() {
+        match a[i] {
+            "new" => {
+                let off = i64_of(a[i + 1])?;
+                let nblocks: usize = a[i + 2].parse().ok()?;
+                let rec = st.take().map(|s| s.recycle());
+                cur = nroots;
+                nroots += 1;
+                st = Some(Sieve::new(off, nblocks, &fb, [&roots[cur][0][..], &roots[cur][1][..]], rec));
+                i += 5;
+            }
+            "rehash" => {
+                cur = nroots;
+                nroots += 1;
+                st.as_mut()?.rehash([&roots[cur][0][..], &roots[cur][1][..]]);
+                i += 3;
+            }
+            "skip" => {
+                let k: usize = a[i + 1].parse().ok()?;
+                let s = st.as_mut()?;
+                for _ in 0..k {
+                    s.sieve_block();
+                    s.next_block();
+                }
+                i += 2;
+            }
+            "blk" => {
+                let thr: u8 = a[i + 1].parse().ok()?;
+                let s = st.as_mut()?;
+                s.sieve_block();
+                let mut h: u128 = 0;
+                for &v in s.blk.iter() {
+                    h = (h * 1000003 + v as u128 + 1) % HMOD;
+                }
+                let mx = s.blk.iter().max().copied().unwrap_or(0);
+                let (res, facs) = s.smooths(thr, root, [&roots[cur][0][..], &roots[cur][1][..]]);
+                let mut line = format!("K{} h={} mx={} n={}", s.blk_no, h, mx, res.len());
+                for (r, f) in res.iter().zip(&facs) {
+                    let mut f = f.clone();
+                    f.sort();
+                    line.push_str(&format!(" {}:{}", r, dots(&f)));
+                }
+                out.push(line);
+                s.next_block();
+                i += 2;
+            }
+            _ => return None,
+        }
+    }
+    Some(format!("ok | {}", out.join(";")))
+}
+
 fn pairs(s: &str) -> Option<Vec<(usize, usize)>> {
     if s == "-" {
         return Some(vec![]);
@@ -281,6 +370,7 @@ fn cof(a: &[&str]) -> Option<String> {
 pub fn handle(op: &str, a: &[&str]) -> Option<String> {
     match (op, a.len()) {
         ("sv", n) if n >= 3 => sv(a),
+        ("svb", n) if n >= 3 => svb(a),
         ("svt", 4) => svt(a),
         ("svl", 4) => svl(a),
         ("sv_cof", 5) => cof(a),
